@@ -2110,6 +2110,27 @@ class Models(object):
             return x
         return r if isinstance(x, Arr) or a.ndim else r.item()
 
+    def np_searchsorted(self, a, v, side='left', sorter=None):
+        """np.searchsorted on concrete data (tables of sizes and the like)"""
+        if sorter is not None:
+            raise AnalysisError('np.searchsorted with a sorter')
+        import bisect
+        a = self.np_asarray(a)
+        keys = [ndarr.concrete_real(x) for x in a.ravel().items()]
+        if any(k is None for k in keys):
+            raise AnalysisError('np.searchsorted in a table of symbolic values')
+        fn = bisect.bisect_left if side == 'left' else bisect.bisect_right
+
+        def one(x):
+            c = ndarr.concrete_real(x)
+            if c is None:
+                raise AnalysisError('np.searchsorted of a symbolic value %r' % (x,))
+            return fn(keys, c)
+        if isinstance(v, (Arr, list, tuple)):
+            va = self.np_asarray(v)
+            return Arr(va.shape, [one(x) for x in va.items()], kind='i')
+        return one(v)
+
     def np_trace(self, a, offset=0):
         a = self.np_asarray(a)
         if a.ndim != 2:
